@@ -240,7 +240,7 @@ func execExtra(p *Pool, o Op, out *Outcome) (handled bool, bad error) {
 		}
 
 	case "CloneEval":
-		// replayed by the model as the constructor with the same name and index
+		// model operation EvalClone: a new value with the same name and index
 		if v := p.eval(a(0)); need(v != nil) {
 			c := v.Clone()
 			p.cloneShared = p.knownObject(c.EntityID())
@@ -249,7 +249,8 @@ func execExtra(p *Pool, o Op, out *Outcome) (handled bool, bad error) {
 			p.cloneLines = []string{fmt.Sprintf("NewEnumValue %d %d", nameKey(c.Name()), c.Index())}
 		}
 	case "CloneEnum":
-		// replayed by the model as the composite NewSignalEnum, then per value NewSignalEnumValue + AddValue
+		// model operation EnumClone: a new enum, then per value (ascending index) a new value added to it;
+		// the pool registers the clone's values in the order of Values(), as the model numbers them
 		if e := p.enum(a(0)); need(e != nil) {
 			c, err := e.Clone()
 			out.Err = err
